@@ -123,6 +123,9 @@ def run(ck):
                 neg_t, neg_r = batch_desc(srcs[1]) if not neg_slab else (None, None)
                 train = T.sym("train")
                 perms = [a for a in (pos_t.all_atoms() if pos_t is not None else []) if isinstance(a, T.App) and a.op == "randperm"]
+                if pos_t is None:
+                    ck.undecided("C07.R1", inst + ":permutation of all N rows", ssite, "the positive batches are not described by a term the analyser follows")
+                    continue
                 ck.check(len(perms) == 1 and perms[0].args[0] == T.sym("N"), "C07.R1", inst + ":permutation of all N rows", ssite,
                          "positive batches are not rows of the data under one random permutation of range(N): %r" % (pos_t,))
                 if len(perms) != 1:
